@@ -60,12 +60,14 @@ theorem creditAll_steps (env : Env) (a : Addr) (c : Cause) :
 /-- a banker send: debits at the banker's own address, credits anywhere -/
 theorem sendCoins_steps (env : Env) (st : St) (bid : Nat) (bi : BankerInfo) (s d : Addr) (amt : Coins) (bank' : Bank)
     (hb : st.bankers[bid]? = some bi) (hbt : bi.bt ≠ 0) (haddr : bi.addr = some s)
-    (h : sendCoins st.bank s d amt (.bankerSend bid) = .ok bank') :
+    (h : sendCoins env.restricted st.bank s d amt (.bankerSend bid) = .ok bank') :
     Steps env st { st with bank := bank' } := by
   unfold sendCoins at h
   split at h
   · cases h; exact Steps.refl st
-  · unfold sendUnrestricted at h
+  · split at h
+    · cases h
+    unfold sendUnrestricted at h
     obtain ⟨b1, h1, h2⟩ := bind_ok h
     unfold subtractCoins at h1
     split at h1
